@@ -264,6 +264,7 @@ fn exec<const B: usize, const L: usize>(m: &mut Mon, op: &str, a: &[Arg]) {
     match op {
         "binop" => binop::<B, L>(&mut c, a),
         "shift" => shift::<B, L>(&mut c, a),
+        "shift_uint" => shift_uint::<B, L>(&mut c, a),
         "bits_wrapper" => bits_wrapper::<B, L>(&mut c, a),
         "num_traits" => num_traits::<B, L>(&mut c, a),
         "num_integer" => num_integer::<B, L>(&mut c, a),
@@ -328,6 +329,29 @@ fn shift<const B: usize, const L: usize>(c: &mut Cx, a: &[Arg]) {
         chk!(c, "ShrAssign<Uint>", { let mut z = x; z >>= sa; z }, &er);
         chk!(c, "ShrAssign<&Uint>", { let mut z = x; z >>= &sa; z }, &er);
     }
+}
+
+/// `Uint`-typed shift amounts of any magnitude. The inherent call of the same
+/// meaning is `wrapping_shl/shr(amount)`; an amount that does not fit `usize`
+/// shifts out every bit exactly like `usize::MAX` does.
+fn shift_uint<const B: usize, const L: usize>(c: &mut Cx, a: &[Arg]) {
+    let x: U!() = uint(a[0].u());
+    let sa: U!() = uint(a[1].u());
+    let s = if a[1].u().iter().skip(1).any(|&l| l != 0) {
+        usize::MAX
+    } else {
+        a[1].u().first().copied().unwrap_or(0) as usize
+    };
+    let el = inh!(c, x.wrapping_shl(s));
+    let er = inh!(c, x.wrapping_shr(s));
+    chk!(c, "Shl<Uint>", x << sa, &el);
+    chk!(c, "Shl<&Uint>", x << &sa, &el);
+    chk!(c, "ShlAssign<Uint>", { let mut z = x; z <<= sa; z }, &el);
+    chk!(c, "ShlAssign<&Uint>", { let mut z = x; z <<= &sa; z }, &el);
+    chk!(c, "Shr<Uint>", x >> sa, &er);
+    chk!(c, "Shr<&Uint>", x >> &sa, &er);
+    chk!(c, "ShrAssign<Uint>", { let mut z = x; z >>= sa; z }, &er);
+    chk!(c, "ShrAssign<&Uint>", { let mut z = x; z >>= &sa; z }, &er);
 }
 
 // ---------------------------------------------------------------- Bits
@@ -1086,6 +1110,19 @@ fn workload(m: &mut Mon, bits: usize) {
         m.case("shift", bits, vec![au(&a), Arg::N(s.into())]);
         let s = rand_amount(&mut r, bits);
         m.case("shift", bits, vec![au(&b), Arg::N(s.into())]);
+        // Uint-typed amounts of any magnitude: small, with non-zero high limbs, hostile
+        let amt = match r.below(4) {
+            0 => gen::small(r.below(bits + 70) as u64, bits),
+            1 if bits > 64 => {
+                let mut v = gen::small(r.below(bits + 2) as u64, bits);
+                let l = v.len();
+                v[r.range(1, l - 1)] |= 1 << r.below(8);
+                gen::canon(v, bits)
+            }
+            2 => b.clone(),
+            _ => gen::hostile(&mut r, bits),
+        };
+        m.case("shift_uint", bits, vec![au(&a), au(&amt)]);
         let s32 = rand_amount32(&mut r, bits);
         wrapper_case(m, &mut r, bits, &a, &b, s32);
         let z = gen::hostile(&mut r, bits);
